@@ -13,11 +13,11 @@ import (
 
 // owned describes one container-created disposable instance.
 type owned struct {
-	id    int64
-	reg   int
-	out   int
-	run   *CtorRun
-	owner int // harness scope id; -1 = provider (singleton); -2 = scope whose creation failed
+	id     int64
+	reg    int
+	out    int
+	run    *CtorRun
+	owner  int  // harness scope id; -1 = provider (singleton); -2 = scope whose creation failed
 	orphan bool // output of a registration that was removed after the Add call (created for a sibling's sake)
 }
 
